@@ -9,6 +9,8 @@ CONSTANTS
   NodeCounts = {1}
   LockKeys = {"owner"}
   Variants = {"ctrlsplit"}
+  MaxReRel = 2
+  Slacks = {1}
   FixedKinds = {"conncap", "maplimit", "maplive", "codequota", "mapquota"}
   WithRelease = TRUE
   Emit = FALSE
